@@ -27,6 +27,16 @@ if ! go build $MODFLAG -o $tmpbin ./cmd/check >$VERIF/.bin/build.$$.log 2>&1; th
 fi
 rm -f $VERIF/.bin/build.$$.log
 mv -f $tmpbin $VERIF/.bin/check
+# the real swagger binary, from the same working tree (used by every generator / scanner check)
+tmpsw=$VERIF/.bin/swagger.$$
+if ! (cd $REPO && go build -o $tmpsw ./cmd/swagger) >$VERIF/.bin/buildsw.$$.log 2>&1; then
+  cat $VERIF/.bin/buildsw.$$.log >&2
+  rm -f $VERIF/.bin/buildsw.$$.log $tmpsw
+  echo "HARNESS-ERROR: swagger does not build in $REPO" >&2
+  exit 2
+fi
+rm -f $VERIF/.bin/buildsw.$$.log
+mv -f $tmpsw $VERIF/.bin/swagger
 if [ "${1:-}" = "--setup" ]; then
   echo "setup ok"
   exit 0
